@@ -297,7 +297,14 @@ def mon_suspend(prog, rr, envf=None):
             m_prev = prev[fname] if prev else None
             same_outline = m_prev is not None and m_prev[4] == m_now[4] and not any(
                 e[0] == fname and e[2] in ("enter", "exit") for e in evs)
-            if a_prev and a_now and same_outline:
+            # another conditional aux whose clause is evaluated before this one (a frame above, or the same frame)
+            # and that is running at the end of the tick interrupts evaluation before this aux's clause: the
+            # statement's "later clauses are skipped" then applies to this aux's own clause (reading recorded in DESIGN 7)
+            head_main = lang.head(fm, main)
+            preempted = any(f2 == fname and a2 != aux and m2 in head_main and
+                            (by[a2][4] is not None or (prev is not None and prev[a2][4] is not None))
+                            for (f2, m2, a2) in cond_aux_sites(prog))
+            if a_prev and a_now and same_outline and not preempted:
                 if not any(e[0] == aux and e[2] == "recur" for e in evs):
                     probs.append(("running-cond-aux-not-run", "tick %d aux %s running but no recur event" % (k, aux)))
                 bad = [e for e in evs if e[0] == fname and e[1] in below and e[2] in ("recur", "precur")]
@@ -320,6 +327,8 @@ def mon_suspend(prog, rr, envf=None):
                 if not openx:
                     probs.append(("completed-cond-aux-not-exited", "tick %d aux %s completed without exit events" % (k, aux)))
                 for f in below:
+                    if f not in tuple(m_now[5]):
+                        continue      # still (or again) suspended by another conditional auxiliary
                     if not any(e[0] == fname and e[1] == f and e[2] == "recur" for e in evs):
                         probs.append(("lower-frame-not-resumed", "tick %d aux %s completed but %s did not recur in the same tick" % (k, aux, f)))
     return probs
